@@ -245,6 +245,29 @@ def endings(code, status):
          '[before-assert]\nfile e.txt = -stderr-from -ignore-exit-code % ' + both + '\n[assert]\nexit-code == ' + str(other) + '\n[cleanup]\nfile o.txt = -stdout-from -ignore-exit-code % ' + both + '\n',
          {}, [], verdict('FAIL')),
     ]
+    # how the status comes to be configured: the case's [conf], the [conf] of ./exactly.suite, the [conf] of --suite FILE
+    # (documented precedence: --suite overrides the default suite file; the case's own [conf] comes last and wins)
+    dflt_skip = {'exactly.suite': '[conf]\nstatus = SKIP\n'}
+    dflt_fail = {'exactly.suite': '[conf]\nstatus = FAIL\n'}
+    other_fail = {'other.suite': '[conf]\nstatus = FAIL\n'}
+    other_plain = {'other.suite': '[cases]\n'}
+    passing = '[assert]\nexit-code == %d\n' % code
+    if status == 'PASS':
+        es += [
+            ('status from ./exactly.suite (FAIL), passing', act + passing, dflt_fail, [], ('executed', 'XPASS', True, code)),
+            ('status from ./exactly.suite (SKIP)', act + passing, dflt_skip, [], ('executed', 'SKIPPED', False, None)),
+            ('status from --suite (FAIL) although ./exactly.suite says SKIP, passing', act + passing, dict(dflt_skip, **other_fail),
+             ['--suite', 'other.suite'], ('executed', 'XPASS', True, code)),
+            ('status from --suite (FAIL) although ./exactly.suite says SKIP, failing assertion',
+             act + '[assert]\nexit-code == %d\n' % other, dict(dflt_skip, **other_fail), ['--suite', 'other.suite'],
+             ('executed', 'XFAIL', True, code)),
+            ('--suite without status although ./exactly.suite says FAIL, passing', act + passing, dict(dflt_fail, **other_plain),
+             ['--suite', 'other.suite'], ('executed', 'PASS', True, code)),
+        ]
+    else:
+        es += [('own status although ./exactly.suite and --suite say otherwise', conf + act + passing,
+                {'exactly.suite': '[conf]\nstatus = %s\n' % ('SKIP' if status == 'FAIL' else 'FAIL'), 'other.suite': '[conf]\nstatus = PASS\n'},
+                ['--suite', 'other.suite'], verdict(None))]
     if status != 'SKIP':
         es += [
             ('act phase syntax error', conf + '[act]\n"unterminated\n', {}, [], ('executed', 'SYNTAX_ERROR', False, None)),
